@@ -31,19 +31,25 @@ func try(cs counters.CounterStyle, name string, v int) {
 func main() {
 	_ = pr.NamedString{}
 	cs := table(`
+@counter-style cyc { system: cyclic; symbols: a b c }
 @counter-style add0 { system: additive; additive-symbols: 5 v, 2 ii, 0 z }
+@counter-style padu { system: numeric; symbols: '٠' '١'; pad: 3 '٠' }
+@counter-style numeric { system: cyclic; symbols: x; range: 1 1; fallback: b }
+@counter-style a { system: cyclic; symbols: y; range: 1 1; fallback: numeric }
+@counter-style b { system: numeric; symbols: '0' '1' }
+@counter-style e1 { system: extends nonexist; pad: 3 "0" }
+@counter-style c1 { system: extends c2; }
+@counter-style c2 { system: extends c3; pad: 4 "x" }
+@counter-style c3 { system: extends c1; }
 @counter-style zz { system: cyclic; symbols: z; range: 1 1; fallback: yy }
 @counter-style yy { system: cyclic; symbols: y; range: 1 1; fallback: bb }
 @counter-style bb { system: extends aa; range: auto }
 @counter-style aa { system: extends yy; }
-@counter-style n1 { system: extends decimal; symbols: }
-@counter-style fx { system: fixed -2; symbols: a b c d; }
 @counter-style sy { system: symbolic; symbols: a b; range: -5 5 }
 @counter-style al { system: alphabetic; symbols: a b; range: -5 5 }
-@counter-style nn { system: numeric; symbols: a b; negative: "(" ")"; pad: 5 "_" }
-@counter-style pn { system: cyclic; symbols: a b; negative: "(" ")"; pad: 5 "_"; range: -10 -1 }
+@counter-style ad { system: additive; additive-symbols: 5 v, 2 ii; range: -10 10 }
 `)
 	fmt.Println(len(cs))
-	try(cs, "decimal", 2147483647)
-	try(cs, "lower-roman", 2147483648)
+	for _, n := range []string{"cyc","add0","padu","a","e1","c1","c2","zz","bb","sy","al","ad", "lower-roman", "decimal"} {
+	for _, v := range []int{-3, 0, 1,2,3, 7, 2147483648, -9223372036854775808} { try(cs, n, v) } }
 }
